@@ -513,12 +513,12 @@ def decimals_cases(rng, tier):
     from fractions import Fraction
     for _ in range(120 if tier == "quick" else 2500):
         n = rng.choice([1, 2, 3, 5])
-        style = rng.choice(["small", "coords", "big", "tiny", "mixed"])
+        style = rng.choice(["small", "coords", "big", "tiny", "mixed", "minute"])
         xs = []
         for _ in range(n):
             k = rng.randint(1, 2 ** 12) * rng.choice([-1, 1])
             j = {"small": rng.randint(0, 8), "coords": rng.randint(2, 6), "big": -rng.randint(0, 24), "tiny": rng.randint(8, 30),
-                 "mixed": rng.randint(-20, 20)}[style]
+                 "mixed": rng.randint(-20, 20), "minute": rng.randint(50, 150)}[style]
             xs.append(Fraction(k) / (Fraction(2) ** j) if j >= 0 else Fraction(k) * (2 ** -j))
         tol = Fraction(1, 2 ** rng.choice([7, 10, 20, 30]))
         mx = max(abs(x) for x in xs)
@@ -562,7 +562,7 @@ def float_cases(rng, tier):
     for _ in range(n_cases):
         ft = rng.choice(["f4", "f8"])
         n = rng.choice([1, 2, 3, 6, 12, 40])
-        style = rng.choice(["coords", "coords", "occupancy", "wide", "special", "ints", "round", "negbig"])
+        style = rng.choice(["coords", "coords", "occupancy", "wide", "special", "ints", "round", "negbig", "minute"])
         if style == "coords":
             xs = [round(rng.uniform(-500, 500), 3) for _ in range(n)]
         elif style == "occupancy":
@@ -574,6 +574,11 @@ def float_cases(rng, tier):
         elif style == "round":
             # few significant digits, large magnitude: _get_decimal_places returns a NEGATIVE decimal count
             xs = [rng.choice([-1, 1]) * rng.randint(1, 99) * 10.0 ** rng.randint(7, 23) if rng.random() < 0.6 else float(rng.randint(-50, 50)) for _ in range(n)]
+        elif style == "minute":
+            # every value tiny: the decimal count needed exceeds what a 64-bit factor can express
+            e = rng.randint(15, 44 if ft == "f4" else 300)
+            pool = [rng.choice([-1, 1]) * rng.randint(1, 999) * 10.0 ** -e for _ in range(rng.choice([1, 2, 3]))]
+            xs = [rng.choice(pool) for _ in range(max(n, 12))]      # few distinct values, many rows: the fixed-point chain wins the size comparison
         elif style == "negbig":
             # the largest magnitude is negative, next to tiny high-precision values
             xs = [-rng.uniform(20, 9000) for _ in range(n)]
@@ -1228,7 +1233,13 @@ def _compress_float(xs, ft, tol, be=False):
     if be:
         arr = arr.astype(arr.dtype.newbyteorder(">"))
     c = _compress_fn(bcif.BinaryCIFData(arr), float_tolerance=tol)
-    back = bcif.BinaryCIFData.deserialize(c.serialize()).array
+    # through the real file layer (msgpack), not only serialize(): an encoding parameter msgpack cannot write is a failed write
+    import io
+    f = bcif.BinaryCIFFile({"b": bcif.BinaryCIFBlock({"c": bcif.BinaryCIFCategory({"x": bcif.BinaryCIFColumn(c)})})})
+    buf = io.BytesIO()
+    f.write(buf)
+    buf.seek(0)
+    back = bcif.BinaryCIFFile.read(buf)["b"]["c"]["x"].data.array
     return [float(x) for x in back], [type(e).__name__ for e in c.encoding]
 
 
